@@ -1,3 +1,4 @@
+import Secp.Proofs.DriversBip32
 import Secp.Proofs.Bip32
 import Secp.Proofs.Slices
 /-
@@ -52,5 +53,30 @@ theorem marshal_len_priv (k : ExtKey) (hv : versionIsPrivate k.version = true) (
     `contracts_justified`) this is what makes the value-level model above faithful to the limb code. -/
 theorem extkey_field_arithmetic_exact :
     Secp.Proofs.Slices.entriesOK ["github.com/ModChain/secp256k1/ecckd.ExtendedKey.UnmarshalBinary", "github.com/ModChain/secp256k1/ecckd.ExtendedKey.ToPublicSecp256k1", "github.com/ModChain/secp256k1/ecckd.ExtendedKey.ToPublicECDSA"] = true := by decide +kernel
+
+/-! ### Regenerated drivers (tools/gotr pass T8)
+
+`Secp.Gen.Drivers` is REGENERATED from /repo on every check run: the Go functions below translated
+statement by statement into Lean terms over the value-level primitives.  The theorems say the
+regenerated definitions EQUAL the hand-written models the theorems above are about. -/
+
+/-- `ExtendedKey.UnmarshalBinary` (ecckd/extended.go) regenerated = `unmarshal`, for EVERY byte string and whatever the
+    receiver held before: the decoded fields on success, the model's error otherwise; never `.panic`, never `.undef` -/
+theorem unmarshalBinary_regenerated (k : Bytes × Nat × Bytes × Nat × Bytes × Bytes × Unit) (data : Bytes) :
+    Secp.Gen.Drivers.unmarshalBinary k data =
+      (match unmarshal data with
+       | .ok e => DR.ok (e.version, e.depth, e.fingerprint, e.childNumber, e.keyData, e.chainCode, ())
+       | .error err => DR.err err) :=
+  Secp.Proofs.DriversBip32.unmarshalBinary_regenerated k data
+
+/-- decoding does not depend on what the receiver held before (C13's "decoding into a used object") -/
+theorem unmarshalBinary_receiver_indep (k k' : Bytes × Nat × Bytes × Nat × Bytes × Bytes × Unit) (data : Bytes) :
+    Secp.Gen.Drivers.unmarshalBinary k data = Secp.Gen.Drivers.unmarshalBinary k' data :=
+  Secp.Proofs.DriversBip32.unmarshalBinary_receiver_indep k k' data
+
+/-- `KeyVersion.IsPrivate` / `ToPublic` regenerated -/
+theorem version_regenerated (v : Bytes) :
+    Secp.Gen.Drivers.versionIsPrivateGen v = versionIsPrivate v ∧ Secp.Gen.Drivers.versionToPublicGen v = versionToPublic v :=
+  ⟨Secp.Proofs.DriversBip32.versionIsPrivate_regenerated v, Secp.Proofs.DriversBip32.versionToPublic_regenerated v⟩
 
 end Secp.Props.C13
